@@ -173,11 +173,13 @@ class Monitor:
         finally:
             self._in_monitor -= 1
 
-    def hook_func(self, module, attr, post=None, pre=None, name=None):
+    def hook_func(self, module, attr, post=None, pre=None, name=None, optional=False):
         """Hook a module-level function and rebind every alias of it that the
-        already-imported orquestra modules hold (``from m import f``)."""
+        already-imported orquestra modules hold (``from m import f``).  ``optional``: a helper that is not part of
+        the public interface although its name has no underscore (it lives in a private module and is exported by no
+        package): treated like a private one when the tree does not have it"""
         orig = getattr(module, attr, None)
-        if orig is None and attr.startswith("_"):
+        if orig is None and (attr.startswith("_") or optional):
             # a private helper that this tree does not have (renamed / inlined): nothing to observe there
             self.notes[f"hook-missing:{name or attr}"] = 1
             return None
